@@ -76,48 +76,242 @@ _add(
       FOLLOWER_H),
 )
 
+
+# --- sequence numbers (C06 C07 C19)
+_add(
+    T("seqNumberDiff", ["C06", "C07", "C19"], "`seq_number_diff` of `Internals::seq_compare` (RFC 1982 half of the serial space)",
+      "src/detail/sequence_number_helpers.cpp", r"\bint\s+seq_compare\s*\(", r"seq_number_diff\s*=\s*([0-9a-fA-FxXuUlL]+)\s*;", 1),
+    P("uint32Max", ["C19"], "`std::numeric_limits<uint32_t>::max()` (AckTracker / AckedRange wrap tests)",
+      "std::numeric_limits<uint32_t>::max()", "", ["limits"]),
+)
+
+# --- C08: IPv4 reassembly
+_add(
+    T("fragOffsetUnit", ["C08"], "`IPv4Stream::extract_offset`: bytes per unit of the fragment offset field",
+      "src/ip_reassembler.cpp", r"IPv4Stream::extract_offset\s*\(", r"fragment_offset\s*\(\s*\)\s*\*\s*(\d+)", 1),
+    P("ipMoreFragments", ["C08"], "`IP::MORE_FRAGMENTS`", "Tins::IP::MORE_FRAGMENTS"),
+    P("ipDontFragment", ["C08"], "`IP::DONT_FRAGMENT`", "Tins::IP::DONT_FRAGMENT"),
+    P("ipDefaultTtl", ["C08", "Wire"], "`ttl()` of a default-constructed `IP` (`IP::DEFAULT_TTL`)", "ip.ttl()", "Tins::IP ip;"),
+)
+
+# --- C10 (and C01 through the DNS accessors): names
+_add(
+    T("dnsPointerJumpCap", ["C10"], "`DNS::compose_name`: `if (pointer_counter++ > CAP) throw dns_decompression_pointer_loops()`",
+      "src/dns.cpp", r"DNS::compose_name\s*\(", r"pointer_counter\s*\+\+\s*>\s*(\d+)", 1),
+    T("dnsNameCap", ["C10"], "`DNS::compose_name`: `current_out_ptr - out_ptr + size + 1 > CAP` rejects the label",
+      "src/dns.cpp", r"DNS::compose_name\s*\(", r"current_out_ptr\s*-\s*out_ptr\s*\+\s*size\s*\+\s*1\s*>\s*(\d+)", 1),
+    T("dnsNameBuf", ["C10"], "the `char[N]` buffers `compose_name` writes into (`convert_records`: dname; `queries`: buffer)",
+      "src/dns.cpp", None, r"char\s+(?:dname|buffer)\s*\[\s*(\d+)\s*\]", 2),
+    T("dnsSmallAddrBuf", ["C10"], "`convert_records`: `small_addr_buf[N]`",
+      "src/dns.cpp", r"void\s+DNS::convert_records\s*\(", r"small_addr_buf\s*\[\s*(\d+)\s*\]", 1),
+    T("dnsDecodeCap", ["C10"], "`DNS::decode_domain_name`: `if (output.size() > CAP) throw invalid_domain_name()`",
+      "src/dns.cpp", r"DNS::decode_domain_name\s*\(", r"output\s*\.\s*size\s*\(\s*\)\s*>\s*(\d+)", 1),
+    T("dnsPointerMask", ["C10"], "`& 0x3fff`: the 14 offset bits of a compression pointer (compose_name, update_dname, skip_to_dname_end)",
+      "src/dns.cpp", None, r"&\s*(0x3fff)\b", None),
+    T("dnsPointerMax", ["C10"], "`DNS::update_dname`: `if (index + offset > MAX) throw malformed_packet()`",
+      "src/dns.cpp", r"DNS::update_dname\s*\(", r"index\s*\+\s*offset\s*>\s*(0x[0-9a-fA-F]+|\d+)", 1),
+    T("dnsPointerLow", ["C10"], "`DNS::compose_name`: `index < LOW` (a pointer into the header) is out of bounds; records_data_ starts at LOW",
+      "src/dns.cpp", r"DNS::compose_name\s*\(", [r"index\s*<\s*(0x[0-9a-fA-F]+|\d+)", r"index\s*-\s*(0x[0-9a-fA-F]+|\d+)"], 3),
+    P("dnsHeaderSize", ["C10", "Wire"], "`sizeof(DNS::dns_header)` = `DNS().header_size()`", "sizeof(Tins::DNS::dns_header)"),
+    P("dnsTypeMX", ["C10"], "`DNS::MX`", "Tins::DNS::MX"),
+    P("dnsTypeSOA", ["C10"], "`DNS::SOA`", "Tins::DNS::SOA"),
+    P("dnsTypeA", ["C10"], "`DNS::A`", "Tins::DNS::A"),
+    P("dnsTypeAAAA", ["C10"], "`DNS::AAAA`", "Tins::DNS::AAAA"),
+    P("dnsTypeNS", ["C10"], "`DNS::NS`", "Tins::DNS::NS"),
+    P("dnsTypeCNAME", ["C10"], "`DNS::CNAME`", "Tins::DNS::CNAME"),
+    P("dnsTypePTR", ["C10"], "`DNS::PTR`", "Tins::DNS::PTR"),
+)
+
+# --- minimum frame sizes (C05; C02/C03 through the wire models)
+_add(
+    T("ethMinFrameText", ["C05", "Wire"], "`EthernetII::trailer_size`: `int32_t padding = MIN - sizeof(header_)`",
+      "src/ethernetII.cpp", r"EthernetII::trailer_size\s*\(", r"padding\s*=\s*(\d+)\s*-\s*sizeof\s*\(\s*header_\s*\)", 1),
+    P("ethMinFrame", ["C05", "Wire"], "`size()` of an `EthernetII` frame without payload (header + padding trailer)",
+      "e.header_size() + e.trailer_size()", "Tins::EthernetII e;"),
+    T("dot1qMinText", ["C05", "Wire"], "`Dot1Q::trailer_size`: `(total_size > MIN) ? 0 : (MIN - total_size)`",
+      "src/dot1q.cpp", r"Dot1Q::trailer_size\s*\(", [r"total_size\s*>\s*(\d+)", r"\(\s*(\d+)\s*-\s*total_size\s*\)"], 2),
+    P("dot1qMin", ["C05", "Wire"], "`header_size() + trailer_size()` of a padding `Dot1Q` tag without payload",
+      "q.header_size() + q.trailer_size()", "Tins::Dot1Q q; q.append_padding(true);"),
+)
+
+# --- RFC 4884 (ICMP / ICMPv6 extensions)
+_add(
+    P("icmpMinPayload", ["C05", "Wire"], "`ICMPExtensionsStructure::MINIMUM_ICMP_PAYLOAD` (read by `try_parse_icmp_extensions`)",
+      "Tins::ICMPExtensionsStructure::MINIMUM_ICMP_PAYLOAD"),
+    T("icmpMinPayloadTrailer", ["C05", "Wire"], "`ICMP::trailer_size`: `adjusted_size > MIN ? adjusted_size : MIN`",
+      "src/icmp.cpp", r"\bICMP::trailer_size\s*\(", r"adjusted_size\s*>\s*(\d+)U?\s*\?\s*adjusted_size\s*:\s*(\d+)U?", 2),
+    T("icmpMinPayloadWrite", ["C05", "Wire"], "`ICMP::write_serialization`: every site of the 128-byte minimum "
+      "(`length_value > MIN` x2, `: MIN`, `inner_pdu_size < MIN`, `MIN - inner_pdu_size`, `inner_pdu_size = MIN`)",
+      "src/icmp.cpp", r"\bICMP::write_serialization\s*\(",
+      [r"length_value\s*>\s*(\d+)U?", r"\?\s*length_value\s*:\s*(\d+)U?", r"inner_pdu_size\s*<\s*(\d+)U?",
+       r"(\d+)U?\s*-\s*inner_pdu_size", r"inner_pdu_size\s*=\s*(\d+)U?\s*;"], 6),
+    T("icmp6MinPayloadTrailer", ["C05", "Wire"], "`ICMPv6::trailer_size`: `get_adjusted_inner_pdu_size() > MIN ? ... : MIN`",
+      "src/icmpv6.cpp", r"\bICMPv6::trailer_size\s*\(", [r"get_adjusted_inner_pdu_size\s*\(\s*\)\s*>\s*(\d+)U?\s*\)", r":\s*(\d+)U?\s*;"], 2),
+    T("icmp6MinPayloadWrite", ["C05", "Wire"], "`ICMPv6::write_serialization`: every site of the 128-byte minimum",
+      "src/icmpv6.cpp", r"\bICMPv6::write_serialization\s*\(",
+      [r"length_value\s*>\s*(\d+)U?\s*\)", r"\?\s*length_value\s*:\s*(\d+)U?", r"inner_pdu_size\s*<\s*(\d+)U?",
+       r"(\d+)U?\s*-\s*inner_pdu_size", r"inner_pdu_size\s*=\s*(\d+)U?\s*;"], 6),
+    T("icmpLengthUnit", ["C05", "Wire"], "`ICMP`: unit of the RFC 4884 length field / padding alignment "
+      "(`length_value / sizeof(uint32_t)`, `get_padded_icmp_inner_pdu_size(.., sizeof(uint32_t))`, `length() * sizeof(uint32_t)`)",
+      "src/icmp.cpp", None,
+      [r"rfc4884\s*\.\s*length\s*=\s*length_value\s*/\s*(sizeof\s*\(\s*\w+\s*\)|\d+)",
+       r"get_padded_icmp_inner_pdu_size\s*\(\s*inner_pdu\s*\(\s*\)\s*,\s*(sizeof\s*\(\s*\w+\s*\)|\d+)\s*\)",
+       r"length\s*\(\s*\)\s*\*\s*(sizeof\s*\(\s*\w+\s*\)|\d+)\s*,"], 3),
+    T("icmp6LengthUnit", ["C05", "Wire"], "`ICMPv6`: unit of the RFC 4884 length field / padding alignment",
+      "src/icmpv6.cpp", None,
+      [r"rfc4884\s*\.\s*length\s*=\s*length_value\s*/\s*(sizeof\s*\(\s*\w+\s*\)|\d+)",
+       r"get_padded_icmp_inner_pdu_size\s*\(\s*inner_pdu\s*\(\s*\)\s*,\s*(sizeof\s*\(\s*\w+\s*\)|\d+)\s*\)",
+       r"length\s*\(\s*\)\s*\*\s*(sizeof\s*\(\s*\w+\s*\)|\d+)\s*,"], 3),
+    P("icmpExtObjHeader", ["Wire"], "`ICMPExtension::BASE_HEADER_SIZE`", "Tins::ICMPExtension::BASE_HEADER_SIZE"),
+    P("icmpExtStructHeader", ["Wire"], "`ICMPExtensionsStructure::BASE_HEADER_SIZE`", "Tins::ICMPExtensionsStructure::BASE_HEADER_SIZE"),
+    P("icmpExtVersion", ["Wire"], "`version()` of a default-constructed `ICMPExtensionsStructure`", "x.version()", "Tins::ICMPExtensionsStructure x;"),
+    P("icmpHdrTimestamp", ["C05", "Wire"], "`header_size()` of an ICMP timestamp request", "i.header_size()", "Tins::ICMP i(Tins::ICMP::TIMESTAMP_REQUEST);"),
+    P("icmpHdrAddressMask", ["C05", "Wire"], "`header_size()` of an ICMP address mask request", "i.header_size()", "Tins::ICMP i(Tins::ICMP::ADDRESS_MASK_REQUEST);"),
+)
+
+# --- header-length fields: units and maxima
+_add(
+    T("ipMaxHeadLen", ["C05", "Wire"], "`IP::write_serialization`: `if (new_head_len > MAX) throw serialization_error()`",
+      "src/ip.cpp", r"\bIP::write_serialization\s*\(", r"new_head_len\s*>\s*(\d+)", 1),
+    T("ipHeadLenUnit", ["C05", "Wire"], "`IP::write_serialization`: `header_size() / UNIT`",
+      "src/ip.cpp", r"\bIP::write_serialization\s*\(", r"new_head_len\s*=\s*header_size\s*\(\s*\)\s*/\s*(sizeof\s*\(\s*\w+\s*\)|\d+)", 1),
+    T("tcpMaxDataOffset", ["C05", "Wire"], "`TCP::write_serialization`: `if (new_doff > MAX) throw serialization_error()`",
+      "src/tcp.cpp", r"\bTCP::write_serialization\s*\(", r"new_doff\s*>\s*(\d+)", 1),
+    T("tcpDataOffsetUnit", ["C05", "Wire"], "`TCP::write_serialization`: `(sizeof(tcp_header) + total_options_size) / UNIT`",
+      "src/tcp.cpp", r"\bTCP::write_serialization\s*\(", r"total_options_size\s*\)\s*/\s*(sizeof\s*\(\s*\w+\s*\)|\d+)", 1),
+    T("ipv6ExtUnit", ["C05", "Wire"], "IPv6 extension headers: `(len + 1) * UNIT` (both parser loops), `length_field() / UNIT`, "
+      "`total_size / UNIT - 1` (write_header), `% UNIT` and `UNIT - padding` (get_padding_size)",
+      "src/ipv6.cpp", None,
+      [r"read\s*<\s*uint8_t\s*>\s*\(\s*\)\s*\)\s*\+\s*1\s*\)\s*\*\s*(\d+)", r"length_field\s*\(\s*\)\s*/\s*(\d+)",
+       r"total_size\s*/\s*(\d+)\s*-\s*1", r"\*\s*2\s*\)\s*%\s*(\d+)", r"\(\s*(\d+)\s*-\s*padding\s*\)"], 6),
+    T("ipv6MatchExtUnit", ["C14"], "`IPv6::matches_response`: `(ptr[1] + 1) * UNIT`",
+      "src/ipv6.cpp", r"\bIPv6::matches_response\s*\(", r"ptr\s*\[\s*1\s*\]\s*\+\s*1\s*\)\s*\*\s*(\d+)", 3),
+    P("optionMaxTotal", ["Wire"], "largest `length_field()` of a `PDUOption`: the first size `set_value`-style constructors reject is one more "
+      "(`if (total_size > 65535) throw option_payload_too_large()`)",
+      "probe_option_max()", "", []),
+    P("optionSmallBuffer", ["C12", "Wire"], "`PDUOption<>::small_buffer_size`", "Tins::PDUOption<uint8_t, Tins::PDU>::small_buffer_size"),
+)
+
+# --- header sizes as the objects report them (`header_size()` of a default-constructed object = sizeof(header struct))
+def _hdr(name, cls, ctor="", props=("C05", "Wire"), inc=()):
+    return P("hdr" + name, list(props), f"`{cls}({ctor}).header_size()`", "o.header_size()", f"Tins::{cls} o{('(' + ctor + ')') if ctor else ''};", inc)
+
+
+_add(
+    _hdr("EthernetII", "EthernetII"), _hdr("Dot3", "Dot3"), _hdr("Dot1Q", "Dot1Q"), _hdr("Snap", "SNAP"), _hdr("Llc", "LLC", props=("Wire",)),
+    _hdr("Mpls", "MPLS"), _hdr("PPPoE", "PPPoE"), _hdr("Sll", "SLL"), _hdr("Loopback", "Loopback"),
+    P("hdrPpi", ["Wire"], "`sizeof(PPI::ppi_header)`", "sizeof(Tins::PPI::ppi_header)"),
+    P("hdrPktap", ["Wire"], "`sizeof(PKTAP::pktap_header)`", "sizeof(Tins::PKTAP::pktap_header)"),
+    _hdr("Ip", "IP"), _hdr("Ipv6", "IPv6"), _hdr("Tcp", "TCP"), _hdr("Udp", "UDP"), _hdr("Icmp", "ICMP"), _hdr("Icmpv6", "ICMPv6"),
+    _hdr("IpsecAh", "IPSecAH"), _hdr("IpsecEsp", "IPSecESP"),
+    _hdr("Arp", "ARP", props=("Wire",)), _hdr("BootP", "BootP", props=("Wire",)), _hdr("Stp", "STP", props=("Wire",)),
+    _hdr("Vxlan", "VXLAN", props=("Wire",)), _hdr("Rtp", "RTP", props=("Wire",)),
+    _hdr("Dhcpv6", "DHCPv6", props=("Wire",)),
+    P("hdrDot11", ["Wire"], "`sizeof(Dot11::dot11_header)`", "sizeof(Tins::Dot11::dot11_header)"),
+    P("hdrRadioTap", ["Wire", "C11"], "`sizeof(RadioTap::radiotap_header)`", "sizeof(Tins::RadioTap::radiotap_header)"),
+    P("bootpVendSize", ["Wire"], "`vend().size()` of a default-constructed `BootP`", "o.vend().size()", "Tins::BootP o;"),
+    P("tcpDefaultWindow", ["Wire"], "`window()` of a default-constructed `TCP` (`TCP::DEFAULT_WINDOW`)", "o.window()", "Tins::TCP o;"),
+    P("tcpDefaultDataOffset", ["Wire"], "`data_offset()` of a default-constructed `TCP`", "o.data_offset()", "Tins::TCP o;"),
+)
+
+# --- checksum field offsets (C05)
+_add(
+    P("offIpCheck", ["C05", "Wire"], "`offsetof(IP::ip_header, check)`", "offsetof(Tins::IP::ip_header, check)", "", ["cstddef"]),
+    P("offTcpCheck", ["C05", "Wire"], "`offsetof(TCP::tcp_header, check)`", "offsetof(Tins::TCP::tcp_header, check)", "", ["cstddef"]),
+    P("offUdpCheck", ["C05", "Wire"], "`offsetof(UDP::udp_header, check)`", "offsetof(Tins::UDP::udp_header, check)", "", ["cstddef"]),
+    P("offIcmpCheck", ["C05", "Wire"], "`offsetof(ICMP::icmp_header, check)`", "offsetof(Tins::ICMP::icmp_header, check)", "", ["cstddef"]),
+    P("offIcmpv6Check", ["C05", "Wire"], "`offsetof(ICMPv6::icmp6_header, cksum)`", "offsetof(Tins::ICMPv6::icmp6_header, cksum)", "", ["cstddef"]),
+)
+
+# --- registry numbers the models restate (constants.h and class enums)
+_add(
+    P("protoTcp", ["C05", "Wire"], "`Constants::IP::PROTO_TCP`", "Tins::Constants::IP::PROTO_TCP"),
+    P("protoUdp", ["C05", "Wire"], "`Constants::IP::PROTO_UDP`", "Tins::Constants::IP::PROTO_UDP"),
+    P("protoIcmp", ["C05"], "`Constants::IP::PROTO_ICMP`", "Tins::Constants::IP::PROTO_ICMP"),
+    P("protoIcmpv6", ["C05", "Wire"], "`Constants::IP::PROTO_ICMPV6`", "Tins::Constants::IP::PROTO_ICMPV6"),
+    P("protoNone", ["C05"], "`IPv6::NO_NEXT_HEADER`", "Tins::IPv6::NO_NEXT_HEADER"),
+    P("ethPppoeSession", ["Wire"], "`Constants::Ethernet::PPPOES`", "Tins::Constants::Ethernet::PPPOES"),
+    P("ethPppoeDiscovery", ["Wire"], "`Constants::Ethernet::PPPOED`", "Tins::Constants::Ethernet::PPPOED"),
+    P("ethQinQ", ["Wire"], "`Constants::Ethernet::QINQ`", "Tins::Constants::Ethernet::QINQ"),
+    P("pfInet", ["C05", "Wire"], "`PF_INET` (this platform)", "PF_INET", "", ["sys/socket.h"]),
+    P("pfInet6", ["C05", "Wire"], "`PF_INET6` (this platform)", "PF_INET6", "", ["sys/socket.h"]),
+    P("pfLlc", ["C05", "Wire"], "`PF_LLC` (this platform)", "PF_LLC", "", ["sys/socket.h"]),
+    P("snapDefaultSap", ["C05", "Wire"], "`dsap()` of a default-constructed `SNAP`", "o.dsap()", "Tins::SNAP o;"),
+    P("snapDefaultControl", ["Wire"], "`control()` of a default-constructed `SNAP`", "o.control()", "Tins::SNAP o;"),
+    P("tcpFlagFin", ["C07"], "`TCP::FIN`", "Tins::TCP::FIN"), P("tcpFlagSyn", ["C07"], "`TCP::SYN`", "Tins::TCP::SYN"),
+    P("tcpFlagRst", ["C07"], "`TCP::RST`", "Tins::TCP::RST"), P("tcpFlagAck", ["C07"], "`TCP::ACK`", "Tins::TCP::ACK"),
+    P("tcpOptEol", ["Wire"], "`TCP::EOL`", "Tins::TCP::EOL"), P("tcpOptNop", ["Wire"], "`TCP::NOP`", "Tins::TCP::NOP"),
+    P("tcpOptMss", ["Wire"], "`TCP::MSS`", "Tins::TCP::MSS"), P("tcpOptSack", ["Wire"], "`TCP::SACK`", "Tins::TCP::SACK"),
+    P("tcpOptSackOk", ["Wire"], "`TCP::SACK_OK`", "Tins::TCP::SACK_OK"), P("tcpOptTsopt", ["Wire"], "`TCP::TSOPT`", "Tins::TCP::TSOPT"),
+    P("tcpOptWscale", ["Wire"], "`TCP::WSCALE`", "Tins::TCP::WSCALE"), P("tcpOptAltchk", ["Wire"], "`TCP::ALTCHK`", "Tins::TCP::ALTCHK"),
+    P("ipOptEnd", ["Wire"], "`IP::END`", "Tins::IP::END"), P("ipOptNoop", ["Wire"], "`IP::NOOP`", "Tins::IP::NOOP"),
+    P("dhcpMagicCookie", ["Wire"], "the magic cookie `DHCP::write_serialization` stores (read back from a serialized default `DHCP`)",
+      "probe_dhcp_cookie()", ""),
+    P("dhcpOptEnd", ["Wire"], "`DHCP::END`", "Tins::DHCP::END"), P("dhcpOptPad", ["Wire"], "`DHCP::PAD`", "Tins::DHCP::PAD"),
+)
+
+# --- addresses (C16)
+_add(
+    P("ipv4AddressSize", ["C16"], "`IPv4Address::address_size`", "Tins::IPv4Address::address_size"),
+    P("ipv6AddressSize", ["C16", "C07"], "`IPv6Address::address_size`", "Tins::IPv6Address::address_size"),
+    P("hwAddressSize", ["C16"], "`HWAddress<6>::address_size`", "Tins::HWAddress<6>::address_size"),
+)
+
+# --- capture (C17)
+_add(
+    T("microsecondsInSecond", ["C17"], "`MICROSECONDS_IN_SECOND` (src/timestamp.cpp)",
+      "src/timestamp.cpp", None, r"MICROSECONDS_IN_SECOND\s*=\s*(\d+)\s*;", 1),
+    T("isDot3MinSize", ["C17", "Wire"], "`Internals::is_dot3`: `sz >= MIN`", "include/tins/detail/pdu_helpers.h", r"\bis_dot3\s*\(",
+      r"sz\s*>=\s*(\d+)", 1),
+    T("isDot3Offset", ["C17", "Wire"], "`Internals::is_dot3`: `ptr[OFF] < LIM`", "include/tins/detail/pdu_helpers.h", r"\bis_dot3\s*\(",
+      r"ptr\s*\[\s*(\d+)\s*\]\s*<", 1),
+    T("isDot3Limit", ["C17", "Wire"], "`Internals::is_dot3`: `ptr[OFF] < LIM`", "include/tins/detail/pdu_helpers.h", r"\bis_dot3\s*\(",
+      r"ptr\s*\[\s*\d+\s*\]\s*<\s*(\d+)", 1),
+    P("snifferDefaultSnapLen", ["C17"], "`SnifferConfiguration::DEFAULT_SNAP_LEN`", "Tins::SnifferConfiguration::DEFAULT_SNAP_LEN"),
+)
+
+PROBE_HELPERS = r"""
+static unsigned long long probe_option_max() {
+    // largest data size the option constructor accepts (it throws option_payload_too_large above it)
+    unsigned long long ok = 0;
+    for (unsigned long long n = 65000; n < 70000; ++n) {
+        try { std::vector<uint8_t> v(n); Tins::PDUOption<uint8_t, Tins::PDU> o(1, v.begin(), v.end()); ok = n; }
+        catch (Tins::option_payload_too_large&) { break; }
+    }
+    return ok;
+}
+static unsigned long long probe_dhcp_cookie() {
+    Tins::DHCP d;
+    std::vector<uint8_t> b = d.serialize();
+    size_t at = sizeof(Tins::BootP::bootp_header);
+    if (b.size() < at + 4) return 0;
+    return ((unsigned long long)b[at] << 24) | (b[at + 1] << 16) | (b[at + 2] << 8) | b[at + 3];
+}
+"""
+
 # ------------------------------------------------------------------------------------------------ text extraction
 _pp_cache = {}
 
 
 def preprocessed(relfile):
-    """the file after `g++ -E -P`; headers it includes are cut off at a marker so that only the file's own text is searched"""
+    """the file's own text after `g++ -E` (line markers are used to drop everything that comes from included files)"""
     if relfile in _pp_cache:
         return _pp_cache[relfile]
     path = os.path.join(REPO, relfile)
-    if not os.path.exists(path):
-        _pp_cache[relfile] = None
-        return None
-    marker = "int verif_limits_marker_begin;"
-    src = open(path, errors="replace").read()
-    # the marker goes after the last top-level #include of the file (all includes of libtins sources / headers come first)
-    lines = src.split("\n")
-    last = max([i for i, l in enumerate(lines) if re.match(r"\s*#\s*include\b", l)] or [-1])
-    depth_ok = last + 1
-    # do not cut inside an #if block that is still open after the last include: move on to the matching #endif
-    depth = 0
-    for i, l in enumerate(lines[:depth_ok]):
-        if re.match(r"\s*#\s*if", l):
-            depth += 1
-        elif re.match(r"\s*#\s*endif", l):
-            depth -= 1
-    j = depth_ok
-    while depth > 0 and j < len(lines):
-        if re.match(r"\s*#\s*if", lines[j]):
-            depth += 1
-        elif re.match(r"\s*#\s*endif", lines[j]):
-            depth -= 1
-        j += 1
-    # a marker inside a conditional block could be dropped by the preprocessor; only place it when depth is back to 0
-    text = "\n".join(lines[:j] + [marker] + lines[j:])
-    r = subprocess.run(["g++", "-std=c++11", "-E", "-P", f"-D{core.GUARD}", "-I" + os.path.join(REPO, "include"),
-                        "-I" + os.path.dirname(path), "-x", "c++", "-"], input=text, stdout=subprocess.PIPE,
-                       stderr=subprocess.PIPE, text=True)
     out = None
-    if r.returncode == 0 and marker in r.stdout:
-        out = r.stdout.split(marker, 1)[1]
-    elif r.returncode == 0:
-        out = r.stdout
+    if os.path.exists(path):
+        r = subprocess.run(["g++", "-std=c++11", "-E", f"-D{core.GUARD}", "-I" + os.path.join(REPO, "include"),
+                            "-x", "c++", path], stdout=subprocess.PIPE, stderr=subprocess.PIPE, text=True)
+        if r.returncode == 0:
+            keep, mine = [], False
+            for line in r.stdout.split("\n"):
+                m = re.match(r'#\s+\d+\s+"([^"]*)"', line)
+                if m:
+                    mine = os.path.realpath(m.group(1)) == os.path.realpath(path)
+                    continue
+                if mine:
+                    keep.append(line)
+            out = "\n".join(keep)
     _pp_cache[relfile] = out
     return out
 
@@ -156,7 +350,11 @@ def extract_text(row):
     body = body_after(src, row["func"]) if row["func"] else src
     if body is None:
         return "missing", f"anchor `{row['func']}` not found in {row['file']}"
-    found = [m.group(1).strip() for m in re.finditer(row["pat"], body, re.S)]
+    pats = row["pat"] if isinstance(row["pat"], list) else [row["pat"]]
+    found = []
+    for pat in pats:
+        for m in re.finditer(pat, body, re.S):
+            found += [g.strip() for g in m.groups() if g is not None]
     if not found:
         return "missing", f"expression `{row['pat']}` not found at anchor `{row['func']}` in {row['file']}"
     if row["count"] is not None and len(found) != row["count"]:
@@ -172,7 +370,8 @@ def extract_text(row):
 
 
 # ------------------------------------------------------------------------------------------------ probe
-PROBE_INCLUDES = ["cstdint", "cstdio", "chrono", "tins/tins.h"]
+PROBE_INCLUDES = ["cstdint", "cstdio", "cstddef", "chrono", "limits", "vector", "sys/socket.h", "tins/tins.h", "tins/constants.h", "tins/loopback.h",
+                  "tins/pktap.h", "tins/ppi.h", "tins/tcp_ip/stream_follower.h"]
 
 
 def probe_source(items):
@@ -183,7 +382,7 @@ def probe_source(items):
             if i not in incs:
                 incs.append(i)
     L = [f"#include <{i}>" for i in incs]
-    L += ["using namespace Tins;", "template <class V> static void put(const char* n, V v) {",
+    L += [PROBE_HELPERS, "using namespace Tins;", "template <class V> static void put(const char* n, V v) {",
           "    std::printf(\"%s %llu\\n\", n, (unsigned long long)v);", "}", "int main() {"]
     for name, setup, expr, _ in items:
         L.append("    { " + setup + " put(\"" + name + "\", (" + expr + ")); }")
@@ -207,10 +406,11 @@ def run_probe(items, lib):
         if len(items) > 1 and not values:
             # one bad expression fails the whole translation unit: find out which by compiling them one by one
             values, errors = {}, {}
-            for it in items:
-                v, e = _compile_and_run([it], lib, bdir, key + "-" + it[0])
-                values.update(v)
-                errors.update(e)
+            from concurrent.futures import ThreadPoolExecutor
+            with ThreadPoolExecutor(core.NCPU) as ex:
+                for v, e in ex.map(lambda it: _compile_and_run([it], lib, bdir, key + "-" + it[0]), items):
+                    values.update(v)
+                    errors.update(e)
         with open(cache + ".tmp", "w") as f:
             json.dump({"values": values, "errors": errors}, f)
         os.rename(cache + ".tmp", cache)
